@@ -34,6 +34,9 @@ USERFILES = {"u_top": "USER_NOTES.txt", "u_flav": "{flav}", "u_pkg": "{pkg}/user
              "u_api": "{pkg}/api/stale_user.py"}
 
 
+EXTRA_USER = ["CHANGELOG.md", "MANIFEST.in", "setup.cfg", "poetry.lock", "LICENSE"]
+
+
 class Sandbox:
     """root/work (cwd) with out dir 'out' + sibling sentinels in work and in root."""
 
@@ -68,6 +71,12 @@ class Sandbox:
         p = self.userpath(key)
         p.parent.mkdir(parents=True, exist_ok=True)
         p.write_text(f"user content {key}")
+        if key == "u_flav":
+            # project-level files that packaging tools know by name and no flavour generates: they are the user's, whatever a template mentions
+            for extra in EXTRA_USER:
+                q = self.out / extra
+                if not q.exists():
+                    q.write_text("user content u_flav")
         self.events.append({"ev": "touch", "p": key})
 
     def run(self, c: dict, tracefile: Path | None = None):
